@@ -324,9 +324,19 @@ def run(ctx, rep):
         # the else-if path: after `anders` the current token was found to be `als`
         kw_if = ('enum', tables.TOKEN, tables.keyword_table(ctx)['keywords'].get('als'))
         took_if = False
-        for c in p.constraints:
+        def token_is(c, tokv):
+            """the branch taken established `current token == tokv` (an `==` that came out true, a `!=` that came out false, or the
+            arm of a `match` on the token)"""
             v = c[0][1] if c[0][0] == 'switch' else None
-            if v and v[0] == 'call' and v[1].endswith('PartialEq>::eq') and truth(c) and kw_if in [deref(p.env, a) for a in v[2]]:
+            if v and v[0] == 'call' and (v[1].endswith('PartialEq>::eq') or v[1].endswith('PartialEq::eq')) and truth(c) and tokv in [deref(p.env, a) for a in v[2]]:
+                return True
+            if v and v[0] == 'call' and (v[1].endswith('PartialEq>::ne') or v[1].endswith('PartialEq::ne')) and not truth(c) and tokv in [deref(p.env, a) for a in v[2]]:
+                return True
+            if c[0][0] == 'variant' and c[0][2] == tables.TOKEN and c[1] == tokv[2]:
+                return True
+            return False
+        for c in p.constraints:
+            if token_is(c, kw_if):
                 took_if = True
         if not took_if and not any(c[1] == P + 'parse_statement' for c in p.calls):
             continue
@@ -343,14 +353,11 @@ def run(ctx, rep):
                 x = v[3][0][3][0]
                 if x[0] == 'okval' and x[1][0] == 'call' and x[1][1] == P + 'parse_expr' and len(x[1][2]) > 1 and deref(p.env, x[1][2][1]) == ('enum', 'parser::Precedence', tp['order'][0]):
                     one_elem = True
-        ok = alt is not None and alt[0] == 'agg' and alt[2] == 'Some' and alt[3][0][0] == 'call' and 'into_vec' in alt[3][0][1] and one_elem
-        cond_ok = False
-        for c in p.constraints:
-            v = c[0][1] if c[0][0] == 'switch' else None
-            if v and v[0] == 'call' and v[1].endswith('PartialEq>::eq') and truth(c):
-                args = [deref(p.env, a) for a in v[2]]
-                if ('enum', tables.TOKEN, tables.keyword_table(ctx)['keywords'].get('als')) in args:
-                    cond_ok = True
+        inner = alt[3][0] if alt is not None and alt[0] == 'agg' and alt[2] == 'Some' else None
+        while inner is not None and inner[0] in ('okval',):
+            inner = inner[1]
+        ok = inner is not None and inner[0] == 'call' and 'into_vec' in inner[1] and one_elem
+        cond_ok = any(token_is(c, kw_if) for c in p.constraints)
         rep.ob(ok and cond_ok, 'R07.4', pif.path, 'anders als', 'after `anders`, an `als` token yields a one-statement block holding the whole expression that starts there (as `anders { als .. }` would): %s' % show(alt), pif.loc())
     rep.count('else_if_paths', seen_elseif)
     if not seen_elseif:
